@@ -393,19 +393,15 @@ def run(ctx):
     nsf = ctx.func("pyxform.survey:Survey.get_nsmap", "C19.R4")
     base_ns = ctx.consts.get("pyxform.constants", "NSMAP", "C19.R4")
     it = ctx.interp("C19.R4")
-    for feats in (None, ["create", "update", "offline"]):
-        for ns in (None, 'foo="http://example.org/foo"'):
-            it.reset([])
-            s = Obj(None, {"entity_features": feats, "namespaces": ns}, name="survey")
-            res = it.call_function(nsf, [s], {}, None, nsf.node)
-            has = isinstance(res, dict) and res.get("xmlns:entities") == "http://www.opendatakit.org/xforms/entities"
-            any_ent = isinstance(res, dict) and "xmlns:entities" in res
-            desc = f"entity_features={'set' if feats else 'unset'} namespaces={'set' if ns else 'unset'}"
-            r4.check(has if feats else not any_ent, f"get_nsmap[{desc}]",
-                     "xmlns:entities is declared (with the ODK entities URI) iff entity_features", nsf.loc())
-            keep = isinstance(res, dict) and all(res.get(k) == v for k, v in base_ns.items())
-            r4.check(keep and (not ns or res.get("xmlns:foo") == "http://example.org/foo"), f"get_nsmap.base[{desc}]",
-                     "standard namespaces are kept and the author's namespaces are added", nsf.loc())
+    for desc, feats, ns, res in nsmap_table(ctx, "C19.R4"):
+        has = isinstance(res, dict) and res.get("xmlns:entities") == "http://www.opendatakit.org/xforms/entities"
+        any_ent = isinstance(res, dict) and "xmlns:entities" in res
+        r4.check(has if feats else not any_ent, f"get_nsmap[{desc}]",
+                 "xmlns:entities is declared (with the ODK entities URI) iff entity_features", nsf.loc(), why_fail=f"{res!r}"[:160])
+        keep = isinstance(res, dict) and all(res.get(k) == v for k, v in base_ns.items())
+        want_extra = {f"xmlns:{p}": u for p, u in _NS_CASES[ns]} if ns else {}
+        r4.check(keep and all(res.get(k) == v for k, v in want_extra.items()), f"get_nsmap.base[{desc}]",
+                 "standard namespaces are kept and the author's namespaces are added", nsf.loc(), why_fail=f"{res!r}"[:160])
     # entities-version guarded by the same atom
     xm = ctx.func("pyxform.survey:Survey.xml_model", "C19.R4")
     store = None
@@ -474,6 +470,37 @@ def guards_of_fold(ctx, fi, node):
             if okc:
                 vals.append(v)
     return vals
+
+
+# author-supplied `namespaces` settings used to exercise get_nsmap: prefixes that merely END in "entities" must not be
+# mistaken for the entities declaration, and repeated generation must not lose it
+_NS_CASES = {
+    'foo="http://example.org/foo"': [("foo", "http://example.org/foo")],
+    'subentities="http://example.org/sub"': [("subentities", "http://example.org/sub")],
+    'x="http://example.org/x" geo_entities="http://example.org/geo"': [("x", "http://example.org/x"), ("geo_entities", "http://example.org/geo")],
+}
+
+
+def nsmap_table(ctx, rule):
+    """[(description, entity_features, namespaces setting, evaluated namespace map)] — get_nsmap evaluated abstractly,
+    twice in a row on the same survey object (XML may be regenerated)."""
+    nsf = ctx.func("pyxform.survey:Survey.get_nsmap", rule)
+    it = ctx.interp(rule)
+    out = []
+    for feats in (None, ["create", "update", "offline"]):
+        for ns in (None, *_NS_CASES):
+            s = Obj(None, {"entity_features": feats, "namespaces": ns}, name="survey")
+            res = None
+            for rnd in (1, 2):
+                it.reset([])
+                try:
+                    res = it.call_function(nsf, [s], {}, None, nsf.node)
+                except Raised as e:
+                    res = f"raises {e.exc_name}{e.exc_args}"
+                    break
+                desc = f"entity_features={'set' if feats else 'unset'} namespaces={ns!r} call#{rnd}"
+                out.append((desc, feats, ns, res))
+    return out
 
 
 def _row_loop(w2j):
